@@ -23,6 +23,8 @@ TRUSTED = [
     "cbmc's built-in model of __builtin_clz / __builtin_clzll",
 ]
 ASSUMPTIONS = [
+    'gcd at 16/32/64 bits (groups "divisibility[abstract predicate, modulo Euclid step lemma]"): the Euclid step lemma d|x and d|y <=> d|y and d|(x mod y) '
+    'and d|0 are ASSUMED (number theory; the same code is proved without them at 8 bits)',
     'gcd / reduce_fraction: operands non-negative (the property\'s domain); reduce_fraction: not both operands zero (0/0 divides by zero)',
     'vector operators at T = int64_t: the preconditions exclude exactly the inputs on which the native C++ operator is undefined '
     '(signed overflow, division by zero, INT64_MIN / -1); cross orthogonality and Matrix4 * Vector4 are stated at unsigned element '
@@ -41,7 +43,9 @@ NOT_DECIDED = [
     'gcd<IntT>: "divides both arguments / divisible by every common divisor" is proved for the 8-bit instantiations only (int8_t, uint8_t; '
     'loop contract, all values). The inductive step d|a and d|b <=> d|b and d|(a mod b) is non-linear: no back end decides it at 16 bits within '
     '300 s (12 bits already > 120 s, measured), so for 16/32/64-bit IntT only termination, absence of UB, gcd(a,0) = a, result = 0 iff a = b = 0 '
-    'and result <= max(a,b) are proved (groups *.partial); reduce_fraction is proved for the 8-bit instantiations only',
+    'and result <= max(a,b) are proved outright (groups *.partial); in addition the divisibility clauses are proved at 16/32/64 bits MODULO the assumed Euclid step lemma '
+    'and D(0) with "d divides" as an abstract predicate carried by ghost booleans (groups *.divisibility[abstract predicate ...]); '
+    'reduce_fraction is proved for the 8-bit instantiations only',
     '(AB)v = A(Bv): Matrix4::operator*(Matrix4) accumulates in a double for every T; its contract needs '
     '(double)acc + (double)t == (double)(acc + t), which no back end decided within 300 s (cvc5 additionally hits an SMT2 generation error) -- '
     'the matrix product, and with it associativity with M*v, is not decided. M*v itself is proved (componentwise definition, uint64_t)',
@@ -66,11 +70,19 @@ GCD_FULL_BITS = (8,)       # widths at which the divisibility clauses of gcd are
 def math_unit(ctx, src):
     u = Unit(ctx, 'math')
     u.function(src, MATH, r'constexpr IntT gcd\(IntT a, IntT b\)', new_header='IntT GCD_NAME(IntT a, IntT b)',
-               loops={1: '__CPROVER_assigns(a, b)\n'
+               loops={1: '__CPROVER_assigns(a, b GCD_ABS_LOOP_ASSIGNS)\n'
                          '__CPROVER_loop_invariant(GCD_INV_LIN)\n'
                          '__CPROVER_loop_invariant(GCD_INV_DIV)\n'
+                         '__CPROVER_loop_invariant(GCD_ABS_INV)\n'
                          '__CPROVER_decreases(b)'},
-               nloops=1, body_prefix=' g_a0 = a; g_b0 = b; ')
+               nloops=1, body_prefix=' g_a0 = a; g_b0 = b; GCD_ABS_ENTRY; ',
+               # ghost bookkeeping for the width-independent ("abstract divisibility") proof; all three expand to nothing
+               # unless -DGCD_ABS (contracts/C20_math.h).  They follow the data flow of the real statements: the predicate
+               # value of the remainder is introduced where the remainder is computed, and moves with the assignments.
+               rules=[Rule(r'\bgcd<(\w+)>\(', r'GCD_INST(\1)(', count=None, regex=True),     # explicit call of another instantiation
+                      Rule(r'(IntT (\w+) = (\w+) % (\w+);)', r'\1 GCD_ABS_REM(\2, \3, \4);', count=None, regex=True),
+                      Rule(r'(?<![\w.>])(a|b) = (\w+);', r'\1 = \2; GCD_ABS_MOVE(\1, \2);', count=None, regex=True),
+                      Rule(r'return (\w+);', r'{ GCD_ABS_RET(\1); return \1; }', count=None, regex=True)])
     u.function(src, MATH, r'constexpr std::pair<IntT, IntT> reduce_fraction\(IntT a, IntT b\)',
                new_header='PairT RF_NAME(IntT a, IntT b)',
                rules=[Rule('IntT denom = gcd(a, b);', 'IntT denom = GCD_NAME(a, b); g_denom = denom;', count=1),
@@ -86,6 +98,7 @@ def math_groups(ctx):
     for name, un, w, sg in INT_TYPES:
         full = w in GCD_FULL_BITS
         d = ['IntT=' + name, 'UIntT=' + un, 'W=%d' % w, 'SIGNED=%d' % sg, 'SFX=' + name, 'GCD_FULL=%d' % full]
+        dabs = ['IntT=' + name, 'UIntT=' + un, 'W=%d' % w, 'SIGNED=%d' % sg, 'SFX=' + name, 'GCD_FULL=0', 'GCD_ABS=1']
         gs.append(Group(name='Math.log2i<%s>' % name, harness=H, entry='h_log2i', function='log2i<%s>' % name,
                         enforce='log2i_' + name, defines=d,
                         clause_note='contracts/C20_math.h: 0 <= r < W and (v >> r) == 1, i.e. r = floor(log2 v), for every v > 0',
@@ -95,6 +108,13 @@ def math_groups(ctx):
                             enforce='gcd_' + name, loops=True, defines=d, kind='loop-contract',
                             clause_note='contracts/C20_math.h: termination, no UB, gcd(a,0) = a, result 0 iff both arguments 0, '
                                         'result <= max(a,b) -- divisibility clauses not decided at this width',
+                            replay=Replay(driver='C20/math.cc', mode='gcd', extra=[name])))
+            gs.append(Group(name='Math.gcd<%s>.divisibility[abstract predicate, modulo Euclid step lemma]' % name, harness=H, entry='h_gcd_abs',
+                            function='gcd<%s>' % name, enforce='gcd_' + name, loops=True, defines=dabs, kind='loop-contract',
+                            clause_note='contracts/C20_math.h (GCD_ABS): D = "g_d divides" is an abstract predicate carried by ghost booleans along the '
+                                        'data flow; ASSUMED: D(0) and the Euclid step lemma D(x) && D(y) <=> D(y) && D(x mod y); PROVED: D(result) <=> '
+                                        'D(a) && D(b) for the code as written at this width (which remainder is taken, the swap, termination, the '
+                                        'returned variable, any width-specific path)',
                             replay=Replay(driver='C20/math.cc', mode='gcd', extra=[name])))
         else:
             # the contract's clauses about the two ghost divisors are independent conjuncts: one run each (contracts/C20_math.h)
